@@ -460,6 +460,12 @@ def run(ctx):
     ctx.check(not bad_pairs, "FORM", f"{cf.qualname} / FORM / returns (centre[0], centre[1]) of one fit", ctx.where(cf),
               "x and y of the same fitted centre", f"returned centre pairs {bad_pairs[:2]}")
 
+    # ================================================================== the system solved is the one built by this call
+    ctx.clause("the matrix of a frame is assembled anew at every build, with the caller's own options (no state from earlier calls)")
+    rules.fresh_build(ctx, "force")
+    rules.no_mutated_defaults(ctx, ["forsys.forsys.ForSys.build_force_matrix"])
+
+
 
 _P, _E, _V = "forsys/fmatrix.py", "forsys/edge.py", "forsys/virtual_edges.py"
 PINNED = [
